@@ -118,10 +118,12 @@ func runC04(c *Ctx) {
 		if zero {
 			nZero++
 			// zeroing path: must report exactly InterfaceNotForwarding
-			okMs := ms.Op == an.OpAppend && len(ms.Args) == 2 && ms.Args[1].Op == an.OpStruct && len(ms.Args[1].Args) == 1
+			// (built by append onto a fresh slice, or written as a one-element literal)
+			items, fresh := flattenAppend(ms)
+			okMs := fresh && len(items) == 1 && !items[0].spread
 			if okMs {
-				k, isC := ms.Args[1].Args[0].ConstInt()
-				okMs = isC && k == notFwd && (exprIsNil(ms.Args[0]) || exprIsZero(ms.Args[0]))
+				k, isC := items[0].e.ConstInt()
+				okMs = isC && k == notFwd
 			}
 			ok = okMs && fwdTested && !fwdTrue
 		} else {
